@@ -517,7 +517,9 @@ def run_cases(ctx, cases, exes, drv, flavours):
                 continue
             if hz and knd in ("scanline", "skip-return") and ihead == mhead:
                 sig = HAZ[hz]
-            elif hz and same and knd == "px":
+            elif hz and knd == "px" and (same or (over and ihead == mhead)):
+                # (when the model predicts a read past the last iMCU row the pixels of the rows after it are whatever the
+                # entropy decoder / coefficient arrays yield: only the scheduling observations are compared)
                 sig = HAZ[hz]
             elif haz8 and knd == "px" and nosm(ihead) == nosm(mhead):
                 # an earlier output pass skipped to the bottom: jpeg_skip_scanlines set eoi_reached, this pass shows an older scan
